@@ -10,6 +10,7 @@ import (
 	"errors"
 	"fmt"
 	"io"
+	"io/fs"
 	"iter"
 	"sort"
 	"sync"
@@ -186,7 +187,7 @@ func (d *MemData) OpenFile(ctx context.Context, ptrBytes []byte) (io.ReadSeekClo
 	}
 	d.mu.Unlock()
 	if !ok {
-		err := fmt.Errorf("memdata: no such file %q", ptr)
+		err := fmt.Errorf("memdata: no such file %q: %w", ptr, fs.ErrNotExist)
 		d.Hook.exit("OpenFile", ptr, err)
 		return nil, err
 	}
